@@ -87,6 +87,7 @@ class Scheduler:
         self.keep = []
         self.published = {}                 # id of a published compiled object -> its index in traversal order
         self.line_mode = False
+        self.line_watch = {}                # file basename -> set of line numbers that are scheduling points in access mode
         self.switches = 0
 
     def publish(self, blocks):
@@ -128,12 +129,34 @@ class Scheduler:
             return None
         return glob
 
+    def _watch_tracer(self):
+        sched = self
+        watch = self.line_watch
+
+        def make_local(base, lines):
+            def local(frame, event, arg):
+                if event == 'line' and frame.f_lineno in lines:
+                    sched.yield_point('u', ('line', base, frame.f_lineno))
+                return local
+            return local
+
+        def glob(frame, event, arg):
+            fn = frame.f_code.co_filename
+            base = os.path.basename(fn)
+            lines = watch.get(base)
+            if lines and in_pkg(fn):
+                return make_local(base, lines)
+            return None
+        return glob
+
     def _worker(self, i, job):
         self.local.idx = i
         self.local.busy = False
         self.yield_point('start', None)
         if self.line_mode:
             sys.settrace(self._tracer())
+        elif self.line_watch:
+            sys.settrace(self._watch_tracer())
         try:
             try:
                 self.results[i] = ('ok', job())
@@ -355,6 +378,17 @@ def fingerprint(template):
                                         for k, x in o.__dict__.items()))))
     from DocumentTemplate.DT_String import String
     out.append(('commands', tuple(sorted((k, id(v)) for k, v in String.commands.items()))))
+    # module-level mutable containers of the package (caches, free lists, registries)
+    for mname, mod in sorted(sys.modules.items()):
+        if mod is None or not (mname.startswith('DocumentTemplate') or mname.startswith('TreeDisplay')) or '.tests' in mname:
+            continue
+        for gname, g in sorted(vars(mod).items()):
+            if gname.startswith('__'):
+                continue
+            if isinstance(g, (list, set)):
+                out.append((mname, gname, len(g), tuple(id(x) for x in list(g)[:50])))
+            elif isinstance(g, dict) and gname not in ('__builtins__',):
+                out.append((mname, gname, len(g), tuple(sorted(id(x) for x in list(g.values())[:50]))))
     return tuple(out)
 
 
